@@ -61,11 +61,18 @@ type Control struct {
 	Description   string
 }
 
+// SourceName returns the name of the source package this binary package was
+// built from: the Source field without the version it may carry in brackets
+// ("Source: src (1.0-1)"), or the Package name if there is no Source field.
 func (c Control) SourceName() string {
-	if c.Source == "" {
+	source := c.Source
+	if i := strings.IndexAny(source, " \t("); i >= 0 {
+		source = source[:i]
+	}
+	if source == "" {
 		return c.Package
 	}
-	return c.Source
+	return source
 }
 
 // }}}
